@@ -52,6 +52,12 @@ class CtxSimpleOpWriteHandler(AbstractWriteHandler):
         # Workaround for "partially initialized modules"
         from explorerscript.ssb_converting.decompiler.write_handlers.simple_op import SimpleOperationWriteHandler
         from explorerscript.ssb_converting.decompiler.write_handlers.simple_ops.simple import SimpleSimpleOpWriteHandler
+        from explorerscript.ssb_converting.decompiler.write_handlers.simple_ops.message_switches import (
+            MesageSwitchSimpleOpWriteHandler,
+        )
+        from explorerscript.ssb_converting.decompiler.write_handlers.simple_ops.message_switches_cases import (
+            MesageSwitchCasesSimpleOpWriteHandler,
+        )
 
         op: SsbOperation = self.start_vertex["op"]
         self.decompiler.source_map_add_opcode(op.offset)
@@ -77,6 +83,9 @@ class CtxSimpleOpWriteHandler(AbstractWriteHandler):
             real_handler_ty = handler.get_real_handler()
             if real_handler_ty == SimpleSimpleOpWriteHandler:
                 return real_handler_ty(exits[0].target_vertex, self.decompiler, handler).write_content(ctx)  # type: ignore
+            if real_handler_ty in (MesageSwitchSimpleOpWriteHandler, MesageSwitchCasesSimpleOpWriteHandler):
+                # A `with` block takes a single simple statement, a message switch can not be written inside of it.
+                raise ValueError("lives/performer/object blocks must contain opcodes that are no message switches.")
 
         # Fall back to `with` block syntax
         self.decompiler.write_stmnt(f"with ({ctx})")
